@@ -52,6 +52,12 @@ func (node TlvSimpleNode) Encode() []byte {
 
 func (node TlvSimpleNode) stringWithIndent(indent int) string {
 	var sb strings.Builder
+	node.writeString(&sb, indent)
+	return sb.String()
+}
+
+// writes the textual form to the (shared) builder
+func (node TlvSimpleNode) writeString(sb *strings.Builder, indent int) {
 	sb.WriteString(indentString(indent))
 	sb.WriteString(fmt.Sprintf("%02x: %x", node.tag, node.value))
 	if node.tag == 0x06 {
@@ -66,7 +72,6 @@ func (node TlvSimpleNode) stringWithIndent(indent int) string {
 		sb.WriteString(fmt.Sprintf(" [%s]", string(node.value)))
 	}
 	sb.WriteString("\n")
-	return sb.String()
 }
 
 func (node TlvSimpleNode) String() string {
